@@ -245,4 +245,17 @@ theorem applyLocationMonths_congr_nodup {α} (f f' : WinFn α)
     rw [monthIdx_eq]; exact take_nodup fut _ hnd (indicesIn_nodup mF _)
   simp only [hff _ _ _ _ _ _ hw]
 
+theorem applyLocationMonths_congr_on {α} (f f' : WinFn α) (Pw : List α → Prop)
+    (hff : ∀ o h x io ih ix, Pw x → f o h x io ih ix = f' o h x io ih ix)
+    (mO mH mF : List Int) (obs hist fut : List α)
+    (hP : ∀ m ∈ Py.arange1 1 13, Pw (take fut (indicesIn mF [m]))) :
+    applyLocationMonths f mO mH mF obs hist fut = applyLocationMonths f' mO mH mF obs hist fut := by
+  unfold applyLocationMonths
+  apply runLoop_congr
+  intro m hm
+  unfold monthWrites
+  have hw : Pw (take fut (Py.whereTrue (mF.map (fun x => decide (x = m))))) := by
+    rw [monthIdx_eq]; exact hP m hm
+  simp only [hff _ _ _ _ _ _ hw]
+
 end Lemmas.C06
